@@ -13,6 +13,15 @@ CLAIMED = {
     note='Trusted: clang-14 front end, ll2c translator (validated against the repository test-suite), CBMC, the abstract model in harness/C15_hist.c, '
          'vasprintf stub; allocation does not fail; values are non-NaN; operation kinds and resize shapes are enumerated, not symbolic.',
     design='DESIGN.md section 4 / C15'),
+ 'C10': dict(
+    technique='bounded symbolic model checking of the real range tests and interpolation kernels: clang-14 IR -> ll2c -> CBMC 6.11, IEEE-754 bit-precise comparisons (multiply/divide uninterpreted where stated)',
+    text='Bounded proof with CBMC over the real code: (C10.a) the four range tests (check_single_frequency_range, vnacal_new_set_m_error, vnacal_get_parameter_value, '
+         'the calibration f-bounds used by vnacal_apply) refuse every range that misses the needed band by >= 5 % at either end and accept every covering range, for ALL '
+         'double frequencies in [1,1e15]; (C10.b) _vnacal_rfi returns bit-exactly yp[k] at x == xp[k] for any hint and window; (C10.c) the bracketing segment does not depend on '
+         'the hint; (C10.d) the spline is exact at every knot including 2-knot vectors, and calc is leak-free on its error path.  Knot counts 2..3 (quick) / 1..5 (thorough).',
+    note='Trusted: clang, ll2c, CBMC float model; rfi obligations treat floating multiply/divide/sqrt as uninterpreted functions (the claims do not depend on products); '
+         'reproduction of rational functions BETWEEN knots and the 1..5 % band are outside the claim.',
+    design='DESIGN.md section 4 / C10'),
  'C13': dict(
     technique='bounded symbolic model checking of the real vnaproperty.c with CBMC 6.11 (native C front end, unwinding assertions), abstract-document / sequence / ordered-set oracles, native ASan replay',
     text='Bounded proof with CBMC over the real vnaproperty.c: (C13.a) from 12 enumerated small trees one operation of every kind (set =v, set #, delete, '
